@@ -218,6 +218,10 @@ def eval_chunk(args):
                 if bad:
                     fails.append({'kind': 'string-literal-does-not-evaluate-back', 's': repr(s), 'strategy': strategy,
                                   'subclass': bool(sub), 'prefix': prefix, 'nest': nest_k, 'w': w, 'rw': rw, 'text': text, 'why': bad})
+            elif p.startswith('(error'):
+                # "always terminates, however little width is left": the layout of a string document must not raise either
+                fails.append({'kind': 'printing-a-string-raises', 's': repr(s), 'strategy': strategy, 'subclass': bool(sub), 'prefix': prefix,
+                              'nest': nest_k, 'w': w, 'rw': rw, 'smart': smart, 'raised': p})
         if len(texts) > 1:
             nt += 1
         g = drv.ask('(lay %s %s)' % (sx, ' '.join('(%d %d %d)' % (w, rw, smart) for (w, fr, rw, smart) in cfgs)))
